@@ -348,6 +348,10 @@ func (p *peer) serve(c net.Conn, _ int64) {
 		if len(parts) >= 3 && parts[0] == "k" {
 			name, variant = parts[1], parts[2]
 		}
+		if body, isList := listShapes[strings.TrimPrefix(name, "list-")]; isList && strings.HasPrefix(name, "list-") {
+			w(c, full("200 OK", body))
+			continue
+		}
 		b, ok := p.byKey[name]
 		if !ok {
 			b = p.byKey["good"]
@@ -601,6 +605,104 @@ scenarios:
 	res.Count("scenario_samples", int64(len(samples)))
 	res.Count("scenario_probe_failed", int64(cnt["scn.probe"]-okc["scn.probe"]))
 	res.Eval(vkit.JSON(c), c.Behaviour != "good")
+}
+
+// ---------------------------------------------------------------- lists of any length in responses
+
+// listShapes: what the target may put where the scenario expects a list.
+var listShapes = map[string]string{
+	"0": `{"items":[]}`, "1": `{"items":["a"]}`, "2": `{"items":["a","b"]}`, "4": `{"items":["a","b","c","d"]}`,
+	"str": `{"items":"abc"}`, "obj": `{"items":{"x":1}}`, "null": `{"items":null}`, "nested": `{"items":[["x"],[]]}`,
+	"missing": `{"other":1}`, "mixed": `{"items":[1,2.5,true,null,{"k":[]}]}`,
+}
+
+var listShapeNames = []string{"4", "0", "1", "2", "str", "obj", "null", "nested", "missing", "mixed"}
+
+// listIndexCase: a step takes element [idx] of a list captured from the previous response; the
+// target answers with lists of every length (and with things that are not lists). Whatever the
+// step makes of an index the response does not have, the run goes on: every shot starts, and
+// the engine ends without an error.
+func listIndexCase(res *vkit.Result, p *peer, c Case) {
+	base := vkit.WriteMem(nil)
+	vkit.RemoveMem(base)
+	csv := base + ".csv"
+	var rows strings.Builder
+	shots := 0
+	for r := 0; r < c.Rounds; r++ {
+		for _, sh := range listShapeNames {
+			fmt.Fprintf(&rows, "%d,list-%s\n", shots, sh)
+			shots++
+		}
+	}
+	_ = vkit.WriteMemAt(csv, []byte(rows.String()))
+	defer vkit.RemoveMem(csv)
+	yaml := `variable_sources:
+  - type: "file/csv"
+    name: "rows"
+    file: "` + csv + `"
+    fields: ["id", "kind"]
+requests:
+  - name: "pre"
+    method: "GET"
+    uri: "/k/good/plain/pre"
+    headers: {}
+  - name: "list"
+    method: "GET"
+    uri: "/k/{{.request.list.preprocessor.kind}}/plain/list"
+    headers: {}
+    preprocessor:
+      mapping: {"kind": "source.rows[next].kind"}
+    postprocessors:
+      - type: "var/jsonpath"
+        mapping: {"items": "$.items"}
+  - name: "use"
+    method: "GET"
+    uri: "/k/good/plain/use-{{.request.use.preprocessor.item}}"
+    headers: {}
+    preprocessor:
+      mapping: {"item": "request.list.postprocessor.items[` + c.Behaviour + `]"}
+scenarios:
+  - name: "scn"
+    weight: 1
+    min_waiting_time: 0
+    requests: ["pre", "list", "use"]
+`
+	sp := base + ".yaml"
+	_ = vkit.WriteMemAt(sp, []byte(yaml))
+	defer vkit.RemoveMem(sp)
+	gun := map[string]any{"type": "http/scenario", "target": p.rt.Addr, "dial": map[string]any{"timeout": "10s"}}
+	samples, rr, err := runPool(poolConf(map[string]any{"type": "http/scenario", "file": sp, "limit": shots}, gun, c.Instances), 240*time.Second)
+	if err != nil {
+		res.Inconclusive(true, "list-index scenario pool rejected: %v", err)
+		return
+	}
+	if rr.Hang || rr.WaitHang {
+		res.Violate(key(c, "hang"), "the run did not end within 240 s:\n"+rr.Stacks, c)
+		return
+	}
+	if rr.Err != nil {
+		res.Violate(key(c, "run-aborted"), fmt.Sprintf("items[%s] over responses with lists of every length: Engine.Run returned %v", c.Behaviour, rr.Err), c)
+		return
+	}
+	cnt := map[string]int{}
+	okc := map[string]int{}
+	for _, s := range samples {
+		step := strings.Split(s.Tags, "|")[0]
+		cnt[step]++
+		if s.Net == 0 && s.Proto != 0 {
+			okc[step]++
+		}
+	}
+	if cnt["scn.pre"] != shots || okc["scn.pre"] != shots || cnt["scn.list"] != shots {
+		res.Violate(key(c, "next-shot-affected"), fmt.Sprintf("%d shots: the first two steps of every shot must run, got %v (ok %v)", shots, cnt, okc), c)
+	}
+	// the 4-element list is long enough for every index form used here but 7/-7, which wrap around
+	if okc["scn.use"] < c.Rounds {
+		res.Violate(key(c, "good-shot-affected"), fmt.Sprintf("%d shots got a 4-element list, yet the step using items[%s] succeeded only %d times", c.Rounds, c.Behaviour, okc["scn.use"]), c)
+	}
+	res.Count("scenario_samples", int64(len(samples)))
+	res.Count("list_index_shots", int64(shots))
+	res.Eval(vkit.JSON(c), true)
 }
 
 // ---------------------------------------------------------------- gRPC behind a chaos proxy
@@ -1008,6 +1110,8 @@ func runCase(res *vkit.Result, p *peer, c Case) {
 		closedPortCase(res, c)
 	case c.Gun == "grpc" || c.Gun == "grpc/scenario":
 		grpcCase(res, c)
+	case c.Gun == "http/scenario" && c.Variant == "list-index":
+		listIndexCase(res, p, c)
 	case c.Gun == "http/scenario":
 		scenarioCase(res, p, c)
 	default:
@@ -1060,6 +1164,9 @@ func main() {
 				cases = append(cases, Case{Gun: "http/scenario", Variant: v, Behaviour: nm, Instances: 6, Rounds: 6})
 			}
 		}
+	}
+	for _, idx := range []string{"0", "1", "3", "7", "-1", "-2", "-3", "-4", "-7", "last", "rand", "next"} {
+		cases = append(cases, Case{Gun: "http/scenario", Variant: "list-index", Behaviour: idx, Instances: 2, Rounds: 2})
 	}
 	for _, g := range []string{"http", "connect"} {
 		cases = append(cases, Case{Gun: g, Behaviour: "closed-port", Instances: 2})
